@@ -412,6 +412,7 @@ func (c *Conn) prepareHandshakeStart12() handshakeStart {
 	if c.handshakeConfig.ResumeState != nil {
 		c.state = c.handshakeConfig.ResumeState
 		dtlsstate.CommonState(c.state).LocalVersion = protocol.Version1_2
+		c.restoreReplayWindow()
 
 		if isClient {
 			return handshakeStart{flight12: dtlsflight12.Flight5, fsmState: dtlshandshake.StateFinished}
@@ -428,6 +429,33 @@ func (c *Conn) prepareHandshakeStart12() handshakeStart {
 	}
 
 	return handshakeStart{flight12: dtlsflight12.Flight0, fsmState: dtlshandshake.StatePreparing}
+}
+
+// restoreReplayWindow marks, in the replay detector of the remote epoch, every
+// record number the exported connection had accepted that still lies in the
+// window: a record captured before the export is not delivered again by the
+// resumed connection.
+func (c *Conn) restoreReplayWindow() {
+	common := dtlsstate.CommonState(c.state)
+	epoch := common.RemoteEpoch()
+	if int(epoch) >= len(common.RemoteSequenceNumber) {
+		return
+	}
+	highest := atomic.LoadUint64(&common.RemoteSequenceNumber[epoch])
+	for len(common.ReplayDetector) <= int(epoch) {
+		common.ReplayDetector = append(common.ReplayDetector,
+			replaydetector.New(c.replayProtectionWindow, recordlayer.MaxSequenceNumber),
+		)
+	}
+	first := uint64(0)
+	if window := uint64(c.replayProtectionWindow); highest >= window {
+		first = highest - window + 1
+	}
+	for number := first; number <= highest; number++ {
+		if accept, ok := common.ReplayDetector[epoch].Check(number); ok {
+			accept()
+		}
+	}
 }
 
 func (c *Conn) prepareHandshakeStart13() handshakeStart {
@@ -1966,8 +1994,17 @@ func (c *Conn) legacyReplayMarker(header *recordlayer.Header) (func() bool, bool
 
 		return nil, false
 	}
+	epoch, sequenceNumber := header.Epoch, header.SequenceNumber
 
-	return markPacketAsValid, true
+	return func() bool {
+		latest := markPacketAsValid()
+		if latest {
+			// the receive position travels with an exported state
+			c.updateRemoteSequenceNumber(epoch, sequenceNumber)
+		}
+
+		return latest && epoch >= dtlsstate.CommonState(c.state).RemoteEpoch()
+	}, true
 }
 
 func (c *Conn) decryptLegacyPacket(
